@@ -129,7 +129,7 @@ def _iter_fill(src, th):
             for h in wbs:
                 if src == "iter" and h.fn == "h_init_range":
                     continue
-                if h.fn == "h_step_nth" and big:
+                if h.fn == "h_step_nth" and (big or (not th and d.family == "K2" and d.repr not in ("i8", "u64", "isize"))):
                     continue
                 m.add(h)
         slow = m.bundle.mode("iter") in ("next_and_back", "auto") and src != "names"
@@ -140,7 +140,7 @@ def _iter_fill(src, th):
                 if slow:
                     S = (2 if d.n <= 6 else 1) + (1 if th else 0)
                 m.add(E.h_iter_ops(m, src, S))
-            if d.n <= 8:
+            if d.n <= (8 if th else 5):
                 m.add(E.h_consume(m, src))
             if src == "names":
                 m.add(E.h_zip(m))
@@ -151,7 +151,7 @@ def _iter_fill(src, th):
                 if slow:
                     S = 1 if not th else 2
                 m.add(E.h_iter_ops(m, "iter", S, from_range=True))
-            if d.n <= 6:
+            if d.n <= (6 if th else 4):
                 m.add(E.h_consume(m, "range"))
     return fill
 
@@ -231,7 +231,7 @@ def plan_C02(tier, seed):
             return [["R", "T"], ["M", "A"], ["T", "I"]][i]
         if d.family == "K5":
             return ["M", "T"]
-        return ["M", "T", "A"] if d.repr in ("i8", "u8", "i64", "u64", "isize", "i16") else ["M", "T"]
+        return ["M", "T", "A"] if d.repr in ("i8", "u64", "isize", "i128") else ["M", "T"]
     return _mods(decls, None, "C02", fill, per)
 
 
@@ -268,10 +268,11 @@ def plan_C09_pairs(tier, seed):
     th = tier == "thorough"
     B = BUNDLES
     decls = C.k1()
-    decls += [d for d in C.k2() if d.name in (("k2_i8", "k2_u8", "k2_i64", "k2_i8_mid", "k2_isize", "k2_u16") if not th else
+    decls += [d for d in C.k2() if d.name in (("k2_i8", "k2_u64", "k2_i8_mid") if not th else
                                                tuple(x.name for x in C.k2()))]
-    decls += [d for d in C.k3() if d.name in ("k3_i8_lo", "k3_u8_hi", "k3_i64_lo", "k3_i16_zero", "k3_u64_hi") or th]
-    decls += [d for d in C.k4() if d.name in ("k4_dup", "k4_dup_h", "k4_swap_h", "k4_esc")]
+    decls += [d for d in C.k3() if d.name in ("k3_i8_lo", "k3_u8_hi", "k3_i64_lo") or th]
+    decls += [d for d in C.k4() if d.name in ("k4_dup", "k4_dup_h", "k4_swap_h") or th]
+    decls += [d for d in C.k9() if d.name in ("k9_i128", "k9_u128_gap") or th]
     decls += C.k8(seed, 8 if th else 2)
     full_pairs = [("M", "T"), ("M", "A"), ("T", "A"), ("R", "A"), ("I", "M"), ("R", "T")]
     steer = [("S_as", "T"), ("S_asfs", "M"), ("S_asn", "M"), ("S_itfs", "M"), ("S_it", "M"),
@@ -336,11 +337,11 @@ def plan_C18_oracle(tier, seed):
 def plan_C10_split(tier, seed):
     """one attribute vs the same features split over several attributes"""
     th = tier == "thorough"
-    decls = C.k1() + [d for d in C.k2() if d.name in ("k2_i8", "k2_u64")]
+    decls = C.k1() + [d for d in C.k2() if d.name in (("k2_i8_mid",) if not th else ("k2_i8", "k2_u64", "k2_i8_mid"))]
     out = []
     i = 0
     for d in decls:
-        for bn in ("A", "T", "M"):
+        for bn in (("A", "T") if not th else ("A", "T", "M")):
             b3 = BUNDLES[bn]
             if not b3.legal_for(d):
                 continue
